@@ -177,4 +177,72 @@ theorem lenSum_eq_closedLens (l : List Seg) : lenSum l = (closedLens l).sum := b
     | none => simp [lenSum, closedLens, hs] at ih ⊢; exact ih
     | some x => simp [lenSum, closedLens, hs] at ih ⊢; rw [ih]
 
+/-! ### the relative error of one rounding -/
+
+/-- The magnitude part of `rnd24`, on naturals. -/
+theorem rnd24_nat_error (a : Nat) (hb : ¬ bitLen a ≤ 24) :
+    let sh := bitLen a - 24
+    let q := a / 2 ^ sh
+    let rem := a % 2 ^ sh
+    let half := 2 ^ (sh - 1)
+    let q' := if rem > half ∨ (rem = half ∧ q % 2 = 1) then q + 1 else q
+    (q' * 2 ^ sh ≤ a + half ∧ a ≤ q' * 2 ^ sh + half) ∧ half * 16777216 ≤ a := by
+  intro sh q rem half q'
+  have ha0 : a ≠ 0 := by
+    intro h; subst h; simp [bitLen] at hb
+  have hbl : bitLen a = a.log2 + 1 := by simp [bitLen, ha0]
+  have hsh : 1 ≤ sh := by simp only [sh]; omega
+  have hP : 2 ^ sh = 2 * half := by
+    have : sh = (sh - 1) + 1 := by omega
+    simp only [half]
+    rw [this, Nat.pow_succ]
+    simp
+    omega
+  have hdm : 2 ^ sh * q + rem = a := Nat.div_add_mod a (2 ^ sh)
+  have hrem : rem < 2 ^ sh := Nat.mod_lt _ (Nat.two_pow_pos sh)
+  have hlow : 2 ^ a.log2 ≤ a := Nat.log2_self_le ha0
+  have hhalf : half * 16777216 = 2 ^ a.log2 := by
+    have e : a.log2 = (sh - 1) + 24 := by simp only [sh]; omega
+    simp only [half]
+    rw [e, Nat.pow_add]
+  refine ⟨?_, by omega⟩
+  have hqP : q * 2 ^ sh = 2 ^ sh * q := Nat.mul_comm _ _
+  by_cases hc : rem > half ∨ (rem = half ∧ q % 2 = 1)
+  · have hq' : q' = q + 1 := by simp only [q', hc, if_true]
+    rw [hq', Nat.add_mul, hqP]
+    generalize 2 ^ sh * q = QP at hdm ⊢
+    have : half ≤ rem := by rcases hc with h | h <;> omega
+    omega
+  · have hq' : q' = q := by simp only [q', hc, if_false]
+    rw [hq', hqP]
+    generalize 2 ^ sh * q = QP at hdm ⊢
+    have : rem ≤ half := by
+      rcases Nat.lt_or_ge half rem with h | h
+      · exact absurd (Or.inl h) hc
+      · exact h
+    omega
+
+/-- float32 rounding is accurate to half a unit in the last of 24 significant bits: the relative error of
+`rnd24` is at most `2^-24`, for every integer. -/
+theorem rnd24_error (n : Int) : (rnd24 n - n).natAbs * 16777216 ≤ n.natAbs := by
+  unfold rnd24
+  simp only []
+  by_cases hb : bitLen n.natAbs ≤ 24
+  · simp [hb]
+  · simp only [hb, if_false]
+    obtain ⟨⟨h1, h2⟩, h3⟩ := rnd24_nat_error n.natAbs hb
+    generalize hR : (if n.natAbs % 2 ^ (bitLen n.natAbs - 24) > 2 ^ (bitLen n.natAbs - 24 - 1) ∨
+        n.natAbs % 2 ^ (bitLen n.natAbs - 24) = 2 ^ (bitLen n.natAbs - 24 - 1) ∧
+          n.natAbs / 2 ^ (bitLen n.natAbs - 24) % 2 = 1 then
+        n.natAbs / 2 ^ (bitLen n.natAbs - 24) + 1 else n.natAbs / 2 ^ (bitLen n.natAbs - 24)) *
+        2 ^ (bitLen n.natAbs - 24) = R at h1 h2 ⊢
+    generalize 2 ^ (bitLen n.natAbs - 24 - 1) = H at h1 h2 h3
+    by_cases hn : n < 0
+    · simp only [hn, if_true]
+      have : (-(R : Int) - n).natAbs ≤ H := by clear hR hb; omega
+      exact Nat.le_trans (Nat.mul_le_mul_right _ this) h3
+    · simp only [hn, if_false]
+      have : ((R : Int) - n).natAbs ≤ H := by clear hR hb; omega
+      exact Nat.le_trans (Nat.mul_le_mul_right _ this) h3
+
 end ScVerif.C18
